@@ -1,7 +1,9 @@
 (** Boolean comparators evaluated by the correspondence check of C10: the model of
     Model/Json.v against what the real library wrote and read (checks/c10.py).
-    Every [check_*] returns the list of its sub-checks (all must be [true]); every
-    [known_*] the list of known-finding classifiers that apply to the case. *)
+    Every [check_*] returns the list of its sub-checks (all must be [true]).  No
+    known-finding class of C10 is left, so there are no [known_*] lists any more;
+    [reads_back] / [validator_reads_back] are the CURRENT readers ([main_read_pos],
+    [val_read_pos]). *)
 From Rocfl Require Import Base.Bytes Model.VersionNum Model.Json Model.KnownC10.
 Open Scope N_scope.
 
@@ -44,11 +46,6 @@ Definition check_id (id : bytes) (new_ok : bool) (stored : option bytes) (later_
         implb' (new_ok && later_ok) (Bool.eqb val_clean (validator_reads_back PId t)) ]
   | _ => [ negb new_ok ]
   end.
-Definition known_id (id : bytes) : list bool :=
-  match create_object_id id with
-  | Ok t => [ c10_validator_needs_json_escape PId t ]
-  | _ => [ false ]
-  end.
 
 (** ** content directory: create_object with [cdir], cp of one file to [lp]
     (a canonical benign logical path), commit.  Acceptance is [create_object_cdir]
@@ -62,7 +59,9 @@ Definition check_cdir (cdir alg lp : bytes) (pad : N)
     let cp := content_path (v1 pad) cdir lp in
     let m_cp_ok := fs_name_ok cdir in
     let m_staged := reads_back PContentDir cdir && implb' m_cp_ok (reads_back PContentPath cp) in
-    let m_commit := m_staged && negb (cdir_collides cdir alg) in
+    (* commit: the stage cleanup examines <object root>/v1/<cdir> (fs.rs:852-855, util::metadata_if_exists
+       since a04a002): a name the file system refuses (NUL, more than 255 bytes) is an Io error there *)
+    let m_commit := m_staged && negb (cdir_collides cdir alg) && m_cp_ok in
     [ new_ok;
       implb' new_ok (Bool.eqb cp_ok m_cp_ok);
       implb' new_ok (Bool.eqb staged_ok m_staged);
@@ -70,8 +69,6 @@ Definition check_cdir (cdir alg lp : bytes) (pad : N)
       implb' (new_ok && cp_ok && commit_ok)
              (Bool.eqb val_clean (validator_reads_back PContentDir cdir && validator_reads_back PContentPath cp)) ]
   else [ negb new_ok ].
-Definition known_cdir (cdir alg lp : bytes) (pad : N) : list bool :=
-  [ c10_validator_needs_json_escape PContentDir cdir ].
 
 (** ** logical path: cp of one file named [src] to [dst] in a fresh object *)
 Definition lp_fs_ok (lp : bytes) : bool := forallb fs_name_ok (split_slash lp []).
@@ -91,12 +88,6 @@ Definition check_lpath (dst src cdir : bytes) (pad : N)
                (Bool.eqb val_clean (validator_reads_back PLogicalPath lp && validator_reads_back PContentPath cp)) ]
   | _ => [ negb cp_ok; opt_bytes_eqb stored None; staged_ok; commit_ok ]
   end.
-Definition known_lpath (dst src : bytes) : list bool :=
-  match cp_logical_path dst src with
-  | Ok lp => [ lp_fs_ok lp && c10_needs_json_escape PLogicalPath lp;
-               lp_fs_ok lp && c10_validator_needs_json_escape PLogicalPath lp ]
-  | _ => [ false; false ]
-  end.
 
 (** ** commit metadata *)
 Definition opt_reads (p : pos) (o : option bytes) : bool :=
@@ -111,5 +102,15 @@ Definition check_meta (name addr msg : option bytes) (commit_ok read_ok val_clea
       implb' (commit_ok && read_ok)
              (Bool.eqb val_clean (opt_val_reads PUserName name && opt_val_reads PUserAddress addr && opt_val_reads PMessage msg)) ]
   else [ negb commit_ok ].
-Definition known_meta (name addr msg : option bytes) : list bool :=
-  [ match addr with Some a => c10_validator_needs_json_escape PUserAddress a | None => false end ].
+
+(** ** an inventory as OTHER software may write it: the string [s] rocfl wrote at position
+    [p] respelled as the token [tok] (any legal JSON spelling, e.g. with backslash-u escapes)
+    in the committed inventory files.  main_ok: get_object / versions still succeed;
+    val_ok: rocfl validate reports no error.  The last element is the residual class
+    (escaped head / version key: refused by the main reader, never written by rocfl). *)
+Definition check_foreign (p : pos) (s tok : bytes) (main_ok val_ok : bool) : list bool :=
+  [ opt_bytes_eqb (decode_string tok) (Some s);
+    Bool.eqb main_ok (opt_bytes_eqb (main_read_pos p tok) (Some s));
+    Bool.eqb val_ok (opt_bytes_eqb (val_read_pos p tok) (Some s)) ].
+Definition foreign_class (p : pos) (tok : bytes) : list bool :=
+  [ c10_foreign_escaped_version_name p tok ].
